@@ -9,7 +9,7 @@ from common import Driver, DriverFailure, REPO
 
 LEVEL = "proof"
 MANIFEST = dict(
-    text="The quantifier (every await point of discovery, of each handshake step, and steady state) is a finite table regenerated from the source together with the  The crash-point table has one entry per suspension point of the regenerated skeletons of _connect and discover (crash_points_cover_every_suspension: two independent translators agree). Also: two commands of each kind in flight when the connection is reset / the context exited; task_registry_tracks_every_task."
+    text="The quantifier (every await point of discovery, of each handshake step, and steady state) is a finite table regenerated from the source together with the "
          "teardown facts (what disconnect / discover / __aexit__ / facade.disconnect / _connect / the sequence pump do) and the step lists of the teardown procedures; "
          "the Lean theorems are kernel evaluations over the WHOLE table: the FULL statement no_leak_at_any_point (at every point a reset or a context exit leaves no "
          "endpoint open, no task alive, no observer registered, and the pump alive after a reset - it holds since the three fix: commits 54b7766 / a588de4 / 0bd0a89; "
@@ -18,7 +18,7 @@ MANIFEST = dict(
          "point of the real stack (manager + locator + spa + facade on the virtual loop against the real simulator): the harness injects async_reset() / context exit "
          "exactly when the pump task's coroutine stack is at that point - exits with a client handler that returns at once AND with one that really suspends - lets the "
          "loop settle, and compares the ledger (transports never closed, tasks alive at the instant the exit returns and later, observers left, pump alive, handler "
-         "activity after the exit, callbacks on late datagrams) with the model's prediction.",
+         "activity after the exit, callbacks on late datagrams) with the model's prediction. The crash-point table has one entry per suspension point of the regenerated skeletons of _connect and discover (crash_points_cover_every_suspension: two independent translators agree). Also: two commands of each kind in flight when the connection is reset / the context exited; task_registry_tracks_every_task. discover_releases_endpoint_on_every_exit and awaits_inside_finally_are_the_finished_announcements (all 58 coroutines).",
     note="partial: 'closed' = close() called on the transport object the loop handed out; await points inside the standard library are collapsed to the geckolib await that "
          "contains them; error-path await points of _connect that a healthy handshake never reaches are predicted by the model but not exercised; asyncio delivering a "
          "pending cancellation at the next suspending await is assumed.",
